@@ -345,6 +345,8 @@ pub struct G<'t, 'a, 'g> {
     pub top_ns_names: Vec<String>,
     /// (access path of the nested namespace, outer name) pairs to observe
     pub ns_shadows: Vec<(String, String)>,
+    /// non-exported enums declared in namespace blocks: (name, namespace, block) - a sibling block may reuse the name
+    pub ns_local_enums: Vec<(String, String, usize)>,
     pub big_decl: bool,
     pub did_reverse: bool,
     pub did_enumerate: bool,
@@ -1808,17 +1810,39 @@ impl<'t, 'a, 'g> G<'t, 'a, 'g> {
                         lines.push(self.trace(&t2(&format!("[{{}}, Object.keys({})]", em.name), &[&acc])));
                         continue;
                     }
-                    let name = self.fresh("En");
+                    let mut name = self.fresh("En");
                     let saved = std::mem::take(&mut self.known_enums);
-                    let two_blocks = self.tape.chance(1, 3);
+                    // a non-exported enum with the name of a non-exported enum of a sibling block / namespace
+                    let siblings: Vec<String> = self
+                        .ns_local_enums
+                        .iter()
+                        .filter(|(n, ns, b)| !(*ns == nsname && *b == cur) && !root.at(path).syms.iter().any(|s| s.name == *n && s.block == cur))
+                        // only true siblings: an enum of that name must not be visible here (the text before the
+                        // declaration could refer to it: used-before-declaration in TS, TDZ in the emit)
+                        .filter(|(n, _, _)| !refs.iter().any(|r| r.ts == *n || r.ts.starts_with(&format!("{}.", n))))
+                        .map(|(n, _, _)| n.clone())
+                        .collect();
+                    let reuse = !siblings.is_empty() && self.tape.chance(1, 2) && !self.gated("enum-sibling-scopes-same-name");
+                    if reuse {
+                        name = siblings[self.tape.below(siblings.len())].clone();
+                        self.tag("ns-item:local-enum-same-name-as-sibling-block");
+                    }
+                    let two_blocks = !reuse && self.tape.chance(1, 3);
                     let em = self.gen_enum(&name, false, if two_blocks { 2 } else { 1 }, 3);
                     self.known_enums = saved;
-                    let exported = two_blocks || self.tape.chance(3, 4);
+                    let exported = !reuse && (two_blocks || self.tape.chance(2, 4));
+                    if !exported {
+                        self.ns_local_enums.push((name.clone(), nsname.clone(), cur));
+                    }
                     if two_blocks {
                         root.at_mut(path).pending_enums.push((em.clone(), cur));
                     }
                     self.tag(if exported { "ns-item:export-enum" } else { "ns-item:local-enum" });
                     lines.push(render_enum_block(&em, 0, Binder::Let, if exported { Some(&nsname) } else { None }, if exported { "export " } else { "" }));
+                    if !exported {
+                        self.did_enumerate = true;
+                        lines.push(self.trace(&Two::same(format!("Object.keys({})", em.name))));
+                    }
                     root.at_mut(path).syms.push(Sym { name, kind: SymKind::Enum(em), exported, block: cur });
                 }
                 8 => {
@@ -2145,6 +2169,9 @@ impl<'t, 'a, 'g> G<'t, 'a, 'g> {
             }
             None => self.fresh("Le"),
         };
+        if self.tape.chance(2, 5) && !self.gated("enum-sibling-scopes-same-name") {
+            return self.unit_sibling_enums(&name, shadow);
+        }
         let nblocks = if self.tape.chance(1, 4) && !self.gated("enum-repeated-declaration") { 2 } else { 1 };
         let local_const = shadow.is_none() && self.tape.chance(1, 5);
         let saved = std::mem::take(&mut self.known_enums);
@@ -2195,6 +2222,80 @@ impl<'t, 'a, 'g> G<'t, 'a, 'g> {
         }
         if let Some(o) = shadow {
             out.push(self.trace(&Two::same(format!("Object.keys({})", o.name))));
+        }
+        vec![out]
+    }
+
+    /// Sibling scopes (blocks, switch-case blocks, loop bodies, try/finally blocks; at top level or in a
+    /// function body) that each declare their own enum with the SAME name: unrelated `let E` objects in
+    /// the emit, with or without an outer enum of that name
+    fn unit_sibling_enums(&mut self, name: &str, shadow: Option<&EnumModel>) -> Vec<Vec<Two>> {
+        let k = self.tape.range(2, 3) as usize;
+        let mut bodies: Vec<Two> = vec![];
+        for _ in 0..k {
+            let nblocks = if self.tape.chance(1, 5) { 2 } else { 1 };
+            let saved = std::mem::take(&mut self.known_enums);
+            let e = self.gen_enum(name, false, nblocks, 3);
+            self.known_enums = saved;
+            let mut inner: Vec<Two> = vec![];
+            for bi in 0..nblocks {
+                inner.push(render_enum_block(&e, bi, if bi == 0 { Binder::Let } else { Binder::None }, None, ""));
+                if bi > 0 {
+                    self.did_merge = true;
+                }
+            }
+            self.did_enumerate = true;
+            inner.push(self.trace(&Two::same(format!("Object.keys({})", name))));
+            if self.tape.chance(1, 2) {
+                inner.push(self.enum_read_use(&e, nblocks));
+            }
+            bodies.push(indent(&join2(&inner, "\n"), "    "));
+        }
+        self.tag("enum:sibling-scopes-same-name");
+        let mut out: Vec<Two> = vec![];
+        let blocks: Vec<Two> = bodies.iter().map(|b| t2("  {\n    {}\n  }", &[b])).collect();
+        match self.tape.below(5) {
+            0 => {
+                self.tag("enum:siblings-in-blocks");
+                for b in &bodies {
+                    out.push(t2("{\n    {}\n}", &[b]));
+                }
+            }
+            1 => {
+                self.tag("enum:siblings-in-function-body");
+                let f = self.fresh("fs");
+                out.push(t2(&format!("function {}(p⟦: number⟧) {{\n{{}}\n  return p;\n}}", f), &[&join2(&blocks, "\n")]));
+                out.push(self.trace(&Two::same(format!("{}(1)", f))));
+            }
+            2 => {
+                self.tag("enum:siblings-in-switch-cases");
+                let i = self.fresh("k");
+                let cases: Vec<Two> = bodies.iter().enumerate().map(|(n, b)| t2(&format!("    case {}: {{\n    {{}}\n    break;\n    }}", n), &[b])).collect();
+                out.push(t2(&format!("for (let {i} = 0; {i} < {n}; {i}++) {{\n  switch ({i}) {{\n{{}}\n  }}\n}}", i = i, n = k), &[&join2(&cases, "\n")]));
+            }
+            3 => {
+                self.tag("enum:siblings-in-loop-bodies");
+                for b in &bodies {
+                    let i = self.fresh("i");
+                    out.push(t2(&format!("for (let {i} = 0; {i} < 2; {i}++) {{\n    {{}}\n}}", i = i), &[b]));
+                }
+            }
+            _ => {
+                // (try/finally blocks are not used: on this tree a finally block has no scope of its own,
+                // which is a defect of the core language, not of enum lowering)
+                self.tag("enum:siblings-in-if-branches");
+                for (n, b) in bodies.iter().enumerate() {
+                    if n % 2 == 0 {
+                        out.push(t2("if (__n(1)) {\n    {}\n}", &[b]));
+                    } else {
+                        out.push(t2("if (!__n(1)) {\n  __t(0, \"not-reached\");\n} else {\n    {}\n}", &[b]));
+                    }
+                }
+            }
+        }
+        match shadow {
+            Some(o) => out.push(self.trace(&Two::same(format!("Object.keys({})", o.name)))),
+            None => out.push(self.trace(&Two::same("\"after-siblings\""))),
         }
         vec![out]
     }
@@ -2288,6 +2389,7 @@ pub fn generate(tape: &mut Tape, ctx: &Ctx) -> Value {
         known_enums: vec![],
         top_ns_names: vec![],
         ns_shadows: vec![],
+        ns_local_enums: vec![],
         big_decl: false,
         did_reverse: false,
         did_enumerate: false,
@@ -2323,7 +2425,7 @@ pub fn generate(tape: &mut Tape, ctx: &Ctx) -> Value {
     for _ in 0..nunits {
         g.known_enums = finished_enums.clone();
         // unit kinds: regular enum, const enum, local enum, namespace, classes, core program
-        let w = [10u32, 3, 3, 7, 7, 2];
+        let w = [10u32, 3, 4, 7, 7, 2];
         match g.tape.weighted(&w) {
             0 => {
                 let (chunks, e) = g.unit_enum(false);
